@@ -515,3 +515,28 @@ def match_arms(body, sw, variants=None):
 
 def region_calls(body, region):
     return [body.blocks[bi] for bi in sorted(region) if body.blocks[bi].term and body.blocks[bi].term["k"] == "call"]
+
+
+def eq_const_edges(body, prov, pred, value):
+    """CFG edges on which `term == value` is established for a term satisfying pred: from boolean guards
+    comparing the term with the constant, and from integer switches on the term with a case `value`."""
+    edges = []
+    lines = []
+    for g in guards(body, prov):
+        ea = eq_atom(g)
+        if not ea:
+            continue
+        for a, b in ((ea[0], ea[1]), (ea[1], ea[0])):
+            if b == ("const", value) and pred(a):
+                edges.append(ea[2])
+                lines.append(g.line)
+    for blk in body.live_blocks():
+        t = blk.term
+        if t and t["k"] == "switch" and body.facts.types[t["dty"]]["k"] == "int":
+            term = prov.operand(t["discr"])
+            if pred(term):
+                for c, tg in t["targets"]:
+                    if c == value:
+                        edges.append((blk.idx, tg))
+                        lines.append(t["line"])
+    return edges, lines
